@@ -19,6 +19,8 @@ func install(x *Exec) {
 	lungo.VerifYield = hookYield
 	lungo.VerifThreadStart = hookThreadStart
 	lungo.VerifThreadEnd = hookThreadEnd
+	lungo.VerifRacy = hookRacy
+	dbkit.VerifRacy = hookRacy
 }
 
 func uninstall() {
@@ -29,4 +31,6 @@ func uninstall() {
 	lungo.VerifYield = nil
 	lungo.VerifThreadStart = nil
 	lungo.VerifThreadEnd = nil
+	lungo.VerifRacy = nil
+	dbkit.VerifRacy = nil
 }
